@@ -180,7 +180,8 @@ func putShape(c *Ctx, only string) {
 		_, cntOK := isFieldLoad(ens.Call.Args[1], ri.name, "currentID")
 		c.check(ens.Call.Args[0] == ssa.Value(msgP) && cntOK, name+":ensureID-args", P.ipos(ens), "ensureID(message, r.currentID)", "ensureID is not called with the given message and this replayer's counter")
 		// topics guard
-		topicsOK := false
+		// any comparison that establishes len(topics) >= 1 on the way to the enqueue
+		topicsOK := intGuard(fn, enq.Block(), func(v ssa.Value) bool { return isLenOf(v, topicsP) }, 0, 1, posInf)
 		for _, ifi := range ifsIn(fn) {
 			op, k, succ, ok := cmpConstEdge(ifi, func(v ssa.Value) bool { return isLenOf(v, topicsP) })
 			if !ok || k != 0 {
@@ -209,6 +210,37 @@ func putShape(c *Ctx, only string) {
 			return ok && e.Index == 0 && e.Tuple == ssa.Value(ens)
 		}
 		c.check(guardedByNil(fn, enq.Block(), isEnsErr, true), name+":ensureID-guard", P.ipos(enq), "enqueue only when ensureID returned no error", "a message rejected by ensureID (missing/forbidden ID) can be stored")
+		// a FiniteReplayer's Put changes the buffer only by the enqueue of the accepted message: an eviction (or any
+		// other change) made before the message was validated is lost work when the Put is rejected - the oldest
+		// event disappears although nothing took its place
+		if only == "FiniteReplayer" {
+			var early ssa.Instruction
+			eachInstrDeep(fn, func(in ssa.Instruction) {
+				if early != nil {
+					return
+				}
+				for _, m := range []string{"dequeue", "resize"} {
+					if call := isQueueCall(in, m); call != nil {
+						early = in
+					}
+				}
+				if st, ok := in.(*ssa.Store); ok {
+					if o, _, _, ok := fieldSel(st.Addr); ok && o == "queue" {
+						early = in
+					}
+					if ia, ok := rootIndexAddr(st.Addr); ok {
+						if _, ok := isFieldLoad(ia.X, "queue", "buf"); ok {
+							early = in
+						}
+					}
+				}
+			})
+			pos := P.ipos(enq)
+			if early != nil {
+				pos = P.ipos(early)
+			}
+			c.check(early == nil, name+":buffer-changed-only-by-enqueue", pos, "Put changes the buffer only through the enqueue of the validated message", "Put changes the buffer besides enqueueing the accepted message (an eviction before validation): a rejected Put on a full buffer loses the oldest event")
+		}
 		// ensureID consumes an automatic ID: once it succeeded the message must be stored on every path
 		{
 			leak := false
@@ -2943,6 +2975,16 @@ func r08_6(c *Ctx) {
 		}
 		c.check(okk, name+":parse#"+itoa(i), P.ipos(call), "IDs are recognised with ParseUint(s, 10, 64), the inverse of the issuer's FormatUint(n, 10)",
 			"an automatic ID is not parsed as a 64-bit base-10 unsigned number: strings the issuer never wrote (0x3, 0b11, 1_0, …) are accepted as buffered IDs, or issued IDs are not recognised")
+	}
+	// the presented ID is recognised by strconv.ParseUint (whole string, range-checked), not by a hand-written loop
+	{
+		presented := 0
+		for _, call := range parses {
+			if !fromHeadElemOf(call) && calleeName(call) == "strconv.ParseUint" {
+				presented++
+			}
+		}
+		c.check(presented > 0, name+":presented-id-parsed", P.pos(fn.Pos()), "the presented ID goes through strconv.ParseUint", "the presented ID is not parsed by strconv.ParseUint (a hand-written digit loop accepts trailing garbage such as \"3x\" or wraps above 2^64): never-issued IDs are treated as buffered ones")
 	}
 	// (d) canonical form: ParseUint also accepts decimal strings the issuer never writes (leading
 	// zeros: "010" parses to 10); the presented ID must be checked to be in the issuer's form
